@@ -175,3 +175,33 @@ Section Mapping.
         end
     end.
 End Mapping.
+
+(* ---- the row grammar of mapping files and its printer ---- *)
+Inductive mitem := MComment (t : text) | MBlank (t : text) | MRow (cells : list text).
+Record mfile := mkF { f_pre : list text;          (* white-space lines before the header line *)
+                      f_names : list text;        (* the header line: '#' + names joined by tabs *)
+                      f_items : list mitem }.
+Definition render_item (it : mitem) : text :=
+  match it with MComment t => HASH :: t | MBlank t => t | MRow cells => join TAB cells end.
+Definition render (g : mfile) : list text :=
+  f_pre g ++ (HASH :: join TAB (f_names g)) :: map render_item (f_items g).
+Fixpoint rows_of (items : list mitem) : list (list text) :=
+  match items with
+  | [] => []
+  | MRow cells :: r => cells :: rows_of r
+  | _ :: r => rows_of r
+  end.
+
+Section Relation.
+  Variable conv : Z -> text -> option Tree.
+  (* the id -> {column: value} relation the rows describe: the effective header is the
+     override when one is given (its length selects the first k columns), a short row is
+     padded with empty texts, every cell is read through strip_f and converted per column *)
+  Definition relation (sq ss : bool) (override : list text) (o : colopts) (g : mfile) : mapping :=
+    let H := if is_nil override then f_names g else override in
+    map (fun cells =>
+           (strip_f sq ss (hd [] cells),
+            map (fun kv => (fst kv, process_col conv o (fst kv) (snd kv)))
+                (combine (tl H) (tl (pad (length H) (map (strip_f sq ss) cells))))))
+        (rows_of (f_items g)).
+End Relation.
